@@ -178,7 +178,9 @@ CLAIMS["C17"] = dict(
          "count what is produced; the Assets key-source relation as an exhaustive table on short paths; mode dispatch; and "
          "on ~60 whole scripts x key subsets x preimage sets x both modes (template builder evaluated with a modelled "
          "AssetProvider) the locks a template reports are necessary and sufficient for its witness in the reference "
-         "execution (validates with them, fails with one less and with the other unit; no lock reported = none needed).",
+         "execution (validates with them, fails with one less and with the other unit; no lock reported = none needed); "
+         "Placeholder::satisfy_self turns every placeholder into exactly the element it stands for (decision table over "
+         "placeholder kinds x key forms x satisfier holdings).",
     note="Trusted: spec/outputs.py, spec/satisfaction.py, spec/msexec.py; rustc THIR. Byte equality of completed plans "
          "is not decided.",
     tech=STATIC + "call-structure rules, finite decision tables and symbolic field-provenance extraction from THIR",
@@ -243,7 +245,8 @@ CLAIMS["C14"] = dict(
          "tr() descriptors the updater records exactly BIP-371's fields (internal key, Merkle root, one tap_scripts entry "
          "per leaf whose control block folds to the root, per-key sorted duplicate-free leaf hashes with the key source) "
          "over tree shapes and key placements with hashes as a free algebra; its key translator records (master "
-         "fingerprint, origin path + path) for the key derived along the definite key's own path.",
+         "fingerprint, origin path + path) for the key derived along the definite key's own path; Plan::update_psbt_input "
+         "records the same BIP-174 scripts per descriptor type.",
     note="Trusted: rust-bitcoin PSBT / lock-time types modelled by fields and consensus encodings; C13 (interpreter) and "
          "C01-C03 (satisfier); rustc THIR/MIR; evaluator. Real signatures / sighashes, extraction, operation-history "
          "independence beyond the per-call state tables, and taproot field population are not decided.",
@@ -277,7 +280,8 @@ CLAIMS["C11"] = dict(
          "through the interpreter for ~60 scripts; every single-instruction mutation of ~90 scripts and all tiny "
          "scripts through lexer + decoder; PSBT preimage look-ups of wrong length; the finalizer's spent-output "
          "look-ups over utxo presence x previous-transaction size x vout; ~4000 near-valid key expressions through the public "
-         "and secret descriptor key parsers. Structural: the parser's depth "
+         "and secret descriptor key parsers; the type checker's tree_height (the only bound on parenthesis-free wrapper "
+         "chains) equals the fragment's depth on ~1600 typed fragments. Structural: the parser's depth "
          "pre-check (402 accepted, 403 refused) dominates tree construction; every recursive cycle of the MIR call "
          "graph reachable from an entry point consists of audited functions whose depth that pre-check (or "
          "from_ast's tree-height check) bounds.",
@@ -345,7 +349,8 @@ CLAIMS["C15"] = dict(
          "the BIP-341 root; every leaf's control block folds from its leaf hash along its branch to that root, has "
          "branch length = depth and the spend info's key / parity; leaves come in tree order with their own scripts; "
          "parsing / printing (TapTreeBuilder, Display) and translate_pk keep depths and order; TapTree::combine puts "
-         "both subtrees one level deeper in order and fails exactly beyond depth 128.",
+         "both subtrees one level deeper in order and fails exactly beyond depth 128; to_tap_tree passes exactly the leaves "
+         "(depth, script, version, order) on and is None only without a tree.",
     note="Trusted: collision freedom and the byte-level tagged hashes / tweak arithmetic of rust-bitcoin (not decided: "
          "the design round's reason for `not applicable` still applies to that part); rustc THIR; evaluator. Bounded "
          "family of tree shapes.",
